@@ -206,12 +206,13 @@ Print Assumptions C02_export_uniform_count.
    an argument of anything written: export_full ignores it by construction.) *)
 Theorem C02_export_meta_spec :
   forall (A : Type) (d z : A) (enum : Z -> A) (rnd cfg : Z) (pre : Z -> Z)
+         (f0 : tfile)
          (ds : dset A) (innate : list Z) (sm : smeta) (filt : list bool)
          (filtered skip logs tables basins : bool) (features : option (list Z))
          (calls : list (call A)) (om : ometa),
     wf_ds A ds -> len filt = ds_len ds ->
-    export_full A d z enum rnd cfg pre ds innate sm filt filtered skip logs tables
-                basins features = Ok (calls, om) ->
+    export_full A d z enum rnd cfg pre f0 ds innate sm filt filtered skip logs
+                tables basins features = Ok (calls, om) ->
     exists cnt,
       export A d z enum cfg ds filt filtered skip (req_features features innate)
       = Ok (calls, cnt)
@@ -229,25 +230,32 @@ Theorem C02_export_meta_spec :
 Proof. exact export_meta_spec. Qed.
 Print Assumptions C02_export_meta_spec.
 
-(* Logs and tables: with distinct source names and an injective prefixing of
-   names, every source log (table) is found under its prefixed name with
-   exactly its lines (rows) when the flag is set, no other name holds
-   anything, and nothing is stored when the flag is off. *)
+(* Logs and tables.  Logs go through the model of RTDCWriter.write_text (a
+   line = its UTF-8 bytes, fixed width max(100, longest line of the creating
+   call), lines cut to the width of an existing dataset): with distinct source
+   names, an injective prefixing and no prefixed name in the file before
+   ([f0] = the export's own log), every source log is found under its prefixed
+   name with exactly its lines - no line is cut, whatever its length -, every
+   other name keeps what it held, and the file is untouched when the flag is
+   off.  Tables (one dataset per table): found under the prefixed name with
+   exactly their rows, nothing else, nothing when the flag is off. *)
 Theorem C02_export_logs_tables_carried :
   forall (A : Type) (d z : A) (enum : Z -> A) (rnd cfg : Z) (pre : Z -> Z)
+         (f0 : tfile)
          (ds : dset A) (innate : list Z) (sm : smeta) (filt : list bool)
          (filtered skip logs tables basins : bool) (features : option (list Z))
          (calls : list (call A)) (om : ometa),
-    export_full A d z enum rnd cfg pre ds innate sm filt filtered skip logs tables
-                basins features = Ok (calls, om) ->
+    export_full A d z enum rnd cfg pre f0 ds innate sm filt filtered skip logs
+                tables basins features = Ok (calls, om) ->
     (forall a b, pre a = pre b -> a = b) ->
     (NoDup (map fst (sm_logs sm)) ->
+     (forall n, In n (map fst (sm_logs sm)) -> ~ In (pre n) (tnames f0)) ->
        (logs = true -> forall n l, In (n, l) (sm_logs sm) ->
-          text_content (om_logs om) (pre n) = l)
+          text_lookup (om_logs om) (pre n) = l)
        /\ (logs = true -> forall m, (forall n, In n (map fst (sm_logs sm)) ->
                                      pre n <> m) ->
-          text_content (om_logs om) m = [])
-       /\ (logs = false -> forall m, text_content (om_logs om) m = []))
+          text_lookup (om_logs om) m = text_lookup f0 m)
+       /\ (logs = false -> om_logs om = f0))
     /\ (NoDup (map fst (sm_tables sm)) ->
        (tables = true -> forall n l, In (n, l) (sm_tables sm) ->
           text_content (om_tables om) (pre n) = l)
@@ -258,7 +266,9 @@ Theorem C02_export_logs_tables_carried :
 Proof. exact export_texts_spec. Qed.
 Print Assumptions C02_export_logs_tables_carried.
 
-(* fluorescence:channel count of the source is carried over whatever subset
+(* [definitional: a case split of rectify_chcount, kept because the function
+   is compared with rectify_metadata on every export case]
+   fluorescence:channel count of the source is carried over whatever subset
    of the fluorescence features is exported; only a missing value is filled in
    with the number of stored fl*_max features. *)
 Theorem C02_channel_count_carried :
@@ -279,3 +289,19 @@ Theorem C02_export_short_scalar_refuted :
     export Z 0 0 (fun k => k) 1 ds filt true false req = Err 2.
 Proof. exact export_short_scalar_refuted. Qed.
 Print Assumptions C02_export_short_scalar_refuted.
+
+(* [finding C02-image-cast-uint8] image and image_bg are always stored as
+   uint8: a pixel value 0..255 survives the export, values above saturate at
+   255, negative ones become 0, fractions are cut (uint16 or float sources are
+   NOT exported with unchanged values). *)
+Theorem C02_image_uint8_partial :
+  forall v : Z, 0 <= v <= 255 -> sat8 (8 * v) = v.
+Proof. exact sat8_partial. Qed.
+Print Assumptions C02_image_uint8_partial.
+
+Theorem C02_image_uint8_refuted :
+  (exists v, 255 < v /\ sat8 (8 * v) <> v)
+  /\ (exists v, v < 0 /\ sat8 (8 * v) <> v)
+  /\ (exists k, k mod 8 <> 0 /\ 8 * sat8 k <> k).
+Proof. exact sat8_refuted. Qed.
+Print Assumptions C02_image_uint8_refuted.
